@@ -6180,7 +6180,7 @@ func (t *Terminal) Loop() error {
 		} else {
 			jumpEvent := tui.JumpCancel
 			if event.Type == tui.Rune {
-				if idx := strings.IndexRune(t.jumpLabels, event.Char); idx >= 0 && idx < t.maxItems() && idx < t.merger.Length() {
+				if idx := strings.IndexRune(t.jumpLabels, event.Char); idx >= 0 && idx < t.maxItems() && idx+t.offset < t.merger.Length() {
 					jumpEvent = tui.Jump
 					t.cy = idx + t.offset
 					if t.jumping == jumpAcceptEnabled {
